@@ -4,6 +4,8 @@ NOTES = ("Technique family: runtime monitoring and sanitizers. Every verdict is 
          "evidence files report what the monitors saw. See DESIGN.md.")
 
 ENGINES = [
+    {"name": "space", "path": "harness/src/engines/space.rs", "serves_properties": ["C05"],
+     "kind_free_text": "invariant monitor at quiescent points: data-area partition from the H4 snapshot + independent decode of the raw file + isolation reads + drain/refill epilogue, on small nearly-full devices"},
     {"name": "fault", "path": "harness/src/engines/fault.rs", "serves_properties": ["C09"],
      "kind_free_text": "fault-injection monitor: numbered I/O calls (H1 decision hook) failed before/after per plan, one child process per plan; online read/flush oracle + recovery of durable-prefix and as-is images in fresh processes"},
     {"name": "live", "path": "harness/src/engines/live.rs", "serves_properties": ["C18", "C19"],
@@ -32,6 +34,12 @@ _CONC_NOTE = ("Trusted: client-boundary history recording with one global logica
               "Probabilistic reach into each window, compensated by targeted delays; evidence counts, per scheduling point, arrivals / perturbed / windows in which another operation completed.")
 
 TEXT = {
+    "C05": {
+        "engine": "space + crash(partition)",
+        "technique": "runtime invariant monitoring at quiescent points (exact partition of the data area from a state snapshot, cross-checked by an independent decode of the raw file), plus the same invariant on stores recovered from enumerated crash images",
+        "level_text": "Mixed-extent workloads on 48-256-block devices at 60-92 % fill with flushes at seeded points, periodic-flusher-only stretches, 1-8 workers, background readers deferring releases and delays at the retirement/release points. At each of the hundreds of quiescent points per run set: live extents and free runs tile [16,N) exactly (no overlap, no leak, nothing out of bounds), both free-space views agree and are coalesced, disk_usage and the persisted counters equal the live totals, the independent decoder finds each live record in its extent and only zero/complete-marker blocks elsewhere, and every key returns its own bytes. After clean reopen and for every store recovered from a crash image (crash engine, partition mode) the same partition holds. Epilogue: delete everything -> one free run = whole data area; the original fill program is accepted again.",
+        "level_note": "Trusted: H4 snapshot accessor, independent codec M6. Quiescent-point invariant only. Reach = the fill levels / fragmentation classes reported.",
+    },
     "C09": {
         "engine": "fault",
         "technique": "runtime fault injection at every numbered write/fsync call (before / after the device effect) with online oracles and recovery of the resulting device images in fresh processes",
